@@ -60,8 +60,16 @@ def instantiate_type(
         for idx, instantiation in enumerate(ctype.typename.instantiations):
             if instantiation.name in template_typenames:
                 template_idx = template_typenames.index(instantiation.name)
-                ctype.typename.instantiations[idx].name =\
-                    instantiations[template_idx]
+                # Splice the instantiation into the template argument in place
+                # (the type's template parameters share this Typename object).
+                # The name must stay a string: a Typename stored as the name
+                # crashes the MATLAB wrapper (unhashable dictionary key).
+                replacement = instantiations[template_idx]
+                instantiation.namespaces = list(
+                    instantiation.namespaces) + list(replacement.namespaces)
+                instantiation.name = replacement.name
+                instantiation.instantiations = list(
+                    replacement.instantiations)
 
 
     str_arg_typename = str(ctype.typename)
